@@ -36,6 +36,9 @@ def _ucells(am):
         'hcp': mk(am.Box.hexagonal(3.0, 5.0), [[4, 8, 3], [8, 4, 9]], [1, 1], 12),
         'tet2': mk(am.Box.tetragonal(3.0, 5.0), [[0, 0, 0], [2, 2, 1]], [1, 2], 4),
         'tri1': mk(am.Box.triclinic(3.0, 4.0, 5.0, 80.0, 95.0, 105.0), [[1, 2, 3], [5, 6, 1]], [2, 1], 8),
+        # cells whose box origin is not zero (the crystal is the same crystal wherever the box is anchored)
+        'ortO': mk(am.Box(vects=am.Box.orthorhombic(3.0, 4.0, 5.5).vects, origin=[0.4, -0.9, 1.375]), [[0, 0, 0], [2, 2, 1], [0, 2, 3]], [1, 2, 1], 4),
+        'monoO': mk(am.Box(vects=am.Box.monoclinic(3.0, 4.0, 5.0, 105.0).vects, origin=[-0.7, 0.3, 1.85]), [[0, 0, 0], [4, 2, 5]], [1, 2], 8),
     }
 
 
